@@ -354,6 +354,12 @@ def _job_quad(job):
         out.append(('finding class quadtree-drops-outside-points', z3.And(z3.Or([q for _, q in qs]), K)))
         return out
     obs = C.path_obligations(paths, vio, cexf, replay, 'gridding (quadtree)', 120, classify=classify)
+    for o in obs:
+        # inside the listed finding class (events in no cell) the real lookup returns FEWER indices than events; how the
+        # gridding code pairs them is implementation detail that the lazy index model does not fix: a model that does not
+        # replay there is "class not reproduced", never a harness error and never a verdict
+        if 'finding class' in o.name and o.status == 'sat' and not o.reproduced:
+            o.candidate_only = True
     from .C16 import _aggregate
     obs = _aggregate(obs, paths, trunc)
     return {'obligations': [o.as_dict() for o in obs],
